@@ -127,17 +127,18 @@ def main(run):
     run.note("caretR_lines", sum(1 for l in lines if l.startswith(".word")))
 
     # ---- strings: bounded exhaustive + simulation to 12 items
-    invs = ["WordsLenOK", "UnpackWords", "ExportString"]
+    invs = ["WordsLenOK", "UnpackWords", "ExportString", "ExportCodes"]
     k = 5 if thorough else 4
     res = require_ok(run_tlc("Codec", cfg_text=cfg("string", k, invs), label=f"Codec strings <= {k} items (exhaustive)", timeout=900))
     run.add_tlc(res)
-    recs = list(res.exports)
+    codes = next((e["outcome"] for e in res.exports if e.get("m") == "codes"), None)
+    recs = [e for e in res.exports if e.get("m") != "codes"]
     if res.violated:
         run.violation(f"model: invariant {res.violated} violated in Codec.tla (string mode)", {"tail": res.tail})
     sim = require_ok(run_tlc("Codec", cfg_text=cfg("string", 12, invs), simulate=(3000 if thorough else 400), depth=13,
                              seed=run.seed + 1, workers=1, label="Codec strings <= 12 items (simulation)", timeout=900))
     run.add_tlc(sim)
-    recs += sim.exports
+    recs += [e for e in sim.exports if e.get("m") != "codes"]
     tasks, seen = [], set()
     for i, rec in enumerate(recs):
         for variant in ((i + run.seed), (i + run.seed + 1)) if thorough else ((i + run.seed),):
@@ -151,6 +152,26 @@ def main(run):
             run.violation(f"rad50 string: {bad[0]!r} predicted ok={bad[1]} words={bad[2]} but outcome={bad[3]} code={bad[4]} exc={bad[5]} reports={bad[6]}",
                           {"line": bad[0], "predicted_ok": bad[1], "predicted_words": bad[2], "outcome": bad[3], "code": bad[4]},
                           files={"case.mac": bad[0] + "\n"})
+    # '<expr>' codes that depend on '.', in a '.repeat': copy q of '.rad50 <<. - t>/2 + c>' holds the code c + q, so the program means what
+    # the single-item strings '<c>', '<c+1>', '<c+2>' mean one after the other (their words / refusals are Codec.tla's)
+    if codes is None:
+        raise MachineryError("Codec.tla did not export the single-code table")
+    single = {c: codes[c] for c in range(64)}
+    rtasks = []
+    for c0 in list(range(0, 40, 5)) + [36, 37, 38, 39, 40, 41, 60, 61]:
+        for n in (2, 3, 4):
+            parts = [single.get(c0 + q) for q in range(n)]
+            if any(p_ is None for p_ in parts):
+                continue
+            ok = all(p_["ok"] for p_ in parts)
+            words = [w for p_ in parts for w in p_["words"]] if ok else []
+            rtasks.append((f"t: .repeat {n} {{ .rad50 << . - t > / 2 + {c0:o}> }}", ok, words))
+    for bad in pmap(run_string, rtasks):
+        if bad is not None:
+            run.violation(f"rad50 codes depending on '.': {bad[0]!r} predicted ok={bad[1]} words={bad[2]} but outcome={bad[3]} code={bad[4]} exc={bad[5]} reports={bad[6]}",
+                          {"line": bad[0], "predicted_ok": bad[1], "predicted_words": bad[2], "outcome": bad[3], "code": bad[4]}, files={"case.mac": bad[0] + "\n"})
+    tasks += rtasks
+    run.note("dot_dependent_code_cases", len(rtasks))
     # the "bad" item rendered with every case-folding look-alike, in every position of a group, for '.rad50' and for '^R'
     ftasks = []
     for ch in FOLDING_CHARS:
